@@ -290,9 +290,46 @@ fn show_table<OA: similari::track::ObservationAttributes<MetricObject = f32>>(v:
     s
 }
 
+
+/// ` C m (cand track gap dist)*`: for every (candidate, track) pair of the table the epoch gap and the centre distance in units
+/// of the two bounding radii that `compatible()` applies the spatio-temporal constraints to (both read through public API:
+/// the last predicted boxes of the candidate track and of the stored track)
+macro_rules! geo_section {
+    ($c:expr, $tr:expr, $cinfo:expr, $pairs:expr) => {{
+        let mut s = format!(" C {}", $pairs.len());
+        for (f, to) in $pairs.iter() {
+            let mut found: Option<(usize, Universal2DBox)> = None;
+            for k in 0..$c.shards {
+                let st = $tr.get_main_store();
+                let g = st.get_store(k);
+                if let Some(t) = g.get(to) {
+                    let a = t.get_attributes();
+                    found = Some((a.last_updated_epoch, a.predicted_boxes.back().unwrap().clone()));
+                }
+            }
+            let (ce, cb): &(usize, Universal2DBox) = &$cinfo[*f as usize];
+            match found {
+                Some((te, tb)) => {
+                    let gap = (*ce as i64 - te as i64).abs();
+                    s.push_str(&format!(" {} {} {} {}", f, to, gap, f32_tok(Universal2DBox::dist_in_2r(cb, &tb))));
+                }
+                None => s.push_str(&format!(" {} {} - -", f, to)),
+            }
+        }
+        s
+    }};
+}
+
+fn table_pairs<OA: similari::track::ObservationAttributes<MetricObject = f32>>(v: &[ObservationMetricOk<OA>]) -> Vec<(u64, u64)> {
+    let mut p: Vec<(u64, u64)> = v.iter().map(|e| (e.from - CAND_BASE, e.to)).collect();
+    p.sort();
+    p.dedup();
+    p
+}
+
 /// the distances a SORT-kind predict for `scene` is about to see
 macro_rules! sort_table {
-    ($tr:expr, $scene:expr, $dets:expr) => {{
+    ($c:expr, $tr:expr, $scene:expr, $dets:expr) => {{
         let epoch = $tr.current_epoch_with_scene($scene) + 1;
         let cands: Vec<STrack> = $dets
             .iter()
@@ -310,10 +347,16 @@ macro_rules! sort_table {
                     .unwrap()
             })
             .collect();
+        let cinfo: Vec<(usize, Universal2DBox)> = cands
+            .iter()
+            .map(|t| (t.get_attributes().last_updated_epoch, t.get_attributes().predicted_boxes.back().unwrap().clone()))
+            .collect();
         let (ok, err) = $tr.get_main_store_mut().foreign_track_distances(cands, 0, false);
         let v = ok.all();
         let _ = err.all();
-        show_table(v)
+        let pairs = table_pairs(&v);
+        let geo = geo_section!($c, $tr, cinfo, pairs);
+        format!("{}{}", show_table(v), geo)
     }};
 }
 
@@ -354,14 +397,21 @@ macro_rules! vis_table {
                     .unwrap()
             })
             .collect();
+        let cinfo: Vec<(usize, Universal2DBox)> = cands
+            .iter()
+            .map(|t| (t.get_attributes().last_updated_epoch, t.get_attributes().predicted_boxes.back().unwrap().clone()))
+            .collect();
         let (ok, err) = $tr.get_main_store_mut().foreign_track_distances(cands, 0, false);
         let v = ok.all();
         let _ = err.all();
+        let pairs = table_pairs(&v);
+        let geo = geo_section!($c, $tr, cinfo, pairs);
         let mut s = show_table(v);
         s.push_str(&format!(" G {}", $dets.len()));
         for (i, d) in $dets.iter().enumerate() {
             s.push_str(&format!(" {} {}", f32_tok(d.bbox.area()), opt_f32_tok(shares[i])));
         }
+        s.push_str(&geo);
         s
     }};
 }
@@ -643,7 +693,7 @@ pub fn exec(ctx: &mut Ctx, t: &mut Toks) -> String {
             match &mut tr {
                 Trk::Sort(s) => {
                     let (scene, dets) = &scenes[0];
-                    out.push_str(&sort_table!(s, *scene, dets));
+                    out.push_str(&sort_table!(c, s, *scene, dets));
                     let input: Vec<(Universal2DBox, Option<i64>)> = dets.iter().map(|d| (d.bbox.clone(), d.custom)).collect();
                     let recs = s.predict_with_scene(*scene, &input);
                     log_records(c, *scene, &recs);
@@ -661,7 +711,7 @@ pub fn exec(ctx: &mut Ctx, t: &mut Toks) -> String {
                 }
                 Trk::BatchSort(s) => {
                     for (scene, dets) in &scenes {
-                        out.push_str(&format!(" Q {} {}", scene, sort_table!(s, *scene, dets)));
+                        out.push_str(&format!(" Q {} {}", scene, sort_table!(c, s, *scene, dets)));
                     }
                     crate::sched::EVENTS.lock().unwrap().clear();
                     let delay = c.consumer_delay_us;
